@@ -20,6 +20,20 @@ fn main() {
     let verif_dir = std::env::var("VERIF_DIR").unwrap_or_else(|_| "/verif".to_string());
     let seed: u64 = std::env::var("VERIF_SEED").ok().and_then(|s| s.parse().ok()).unwrap_or(1);
     let workers: usize = std::env::var("VERIF_WORKERS").ok().and_then(|s| s.parse().ok()).unwrap_or_else(|| std::thread::available_parallelism().map(|n| n.get()).unwrap_or(4));
+    // upload spool files go to a directory the harness owns (single-threaded at this point), not to
+    // whatever TMPDIR happens to be; a spool directory that cannot be used is a harness error, not a finding
+    #[cfg(feature = "spool")]
+    {
+        let dir = format!("{verif_dir}/target/spool");
+        match std::fs::create_dir_all(&dir) {
+            Ok(()) => unsafe { std::env::set_var("TMPDIR", &dir) },
+            Err(e) => eprintln!("note: cannot create {dir} ({e}); spooling uploads to the default temporary directory"),
+        }
+        if let Err(e) = tempfile::tempfile() {
+            eprintln!("harness error: cannot create temporary files for the upload spool: {e}");
+            std::process::exit(2);
+        }
+    }
     if let Err(e) = scen::world::check_sdl() {
         eprintln!("harness error: {e}");
         std::process::exit(2);
